@@ -1,6 +1,6 @@
 module verifharness
 
-go 1.21
+go 1.23
 
 require github.com/db47h/decimal v0.0.0
 
